@@ -13,3 +13,4 @@ for p in "$@"; do
 done
 git -C /repo checkout -- . 
 git -C /repo status --short | head -3
+cd /verif/tools/facts && GOFLAGS=-mod=mod GOPROXY=off GOSUMDB=off GOTOOLCHAIN=local go1.26.8 run . /repo /verif/lean/Ldlm/Generated/Facts.lean
